@@ -5,6 +5,14 @@ import json
 ALL = [f"C{i:02d}" for i in range(1, 20)]
 
 CHECKS = {
+    "C14": dict(
+        category="model_checking", engine="E2", design_ref="DESIGN.md 2.2, 3/C14",
+        technique="explicit-state breadth-first search over operation histories on the real objects, canonical state hashing, differential oracle shared-vs-fresh on every transition",
+        text=("BFS over histories of <= 4 (thorough 5) operations from a pool of 17 (parse/serialize/JSON decode/encode, succeeding and failing, both handlers, models "
+              "built to collide on shared state: a namespace-less child under two parents, xsi:type lookups, wildcard memo, prefix re-binding, a module imported between "
+              "calls) applied to one shared XmlContext + parsers + serializers. States are real objects rebuilt by replaying the history and deduplicated by a generic "
+              "canonical hash of every slot of those objects and of all cached XmlMeta/XmlVar. Invariant on every transition: result on shared instances == result on fresh instances."),
+        note="fixed operation pool; process-wide pure lru_caches not part of the state; one open known finding (metadata cache keyed by class only)"),
     "C19": dict(
         category="model_checking", engine="E3+E1", design_ref="DESIGN.md 2.3, 3/C19",
         technique="stateless preemption-bounded exploration of real threads on the real code under a controlled scheduler (sys.monitoring LINE events + per-thread semaphores)",
@@ -87,6 +95,7 @@ def main():
         },
         "engines": [
             {"name": "E1", "path": "vmc/engine.py", "serves_properties": sorted(CHECKS), "kind_free_text": "stateless deviation-bounded explorer over harness choice points (hand-written, Python)"},
+            {"name": "E2", "path": "vmc/props/c14.py + vmc/canon.py", "serves_properties": ["C14"], "kind_free_text": "explicit-state BFS over replayed operation histories with generic canonical state hashing"},
             {"name": "E3", "path": "vmc/sched.py", "serves_properties": ["C19"], "kind_free_text": "controlled thread scheduler: sys.monitoring LINE events at shared-state lines, per-thread semaphore baton, dynamic write profile + AST scan"},
             {"name": "E4", "path": "vmc/setorder.py", "serves_properties": ["C04", "C12"], "kind_free_text": "import-time AST transform owning set iteration order and id() as explorer choice points"},
             {"name": "E5", "path": "vmc/gmodel.py", "serves_properties": ["C01", "C03", "C04", "C08", "C18"], "kind_free_text": "grammar-walk generator of binding models as real dataclasses in synthetic modules"},
